@@ -205,6 +205,19 @@ func (w *world) do(op outb.Op, exact bool) {
 	}
 }
 
+// stallInfo describes the state in which a drain made no progress.
+func (w *world) stallInfo() string {
+	s := nbio.VerifBacklog(w.cn)
+	out := fmt.Sprintf("%s queue: %d buffer + %d file bytes in %d entries, write interest armed=%v, closed=%v; peer got %d", w.c.Cfg.Cell(), s.BufBytes, s.FileBytes, s.Entries, s.WriteArmed, s.Closed, atomic.LoadInt64(&w.gotN))
+	if w.peer != nil {
+		out += "; peer " + outb.FdDiag(w.peer)
+	}
+	if p := w.pol; p != nil {
+		out += fmt.Sprintf("; shim: calls=%d eagain=%d short=%d edges=%d budget=%d kernel_in=%d", atomic.LoadInt64(&p.Calls), atomic.LoadInt64(&p.EAGAIN), atomic.LoadInt64(&p.Short), atomic.LoadInt64(&p.Edges), atomic.LoadInt64(&p.Budget), atomic.LoadInt64(&p.KernelIn))
+	}
+	return out
+}
+
 func (w *world) drainAll() bool {
 	// give the kernel unlimited room and wait until the queue is empty
 	if w.pol != nil {
@@ -393,7 +406,10 @@ func runCase(r *h.Run, c caseT) {
 			} else {
 				if !w.drainAll() {
 					if cl, _ := w.cn.IsClosed(); !cl {
-						r.Inconclusive(fmt.Sprintf("case %d: drain did not complete (C04 decides stalls)", c.Index))
+						r.Inconclusive(fmt.Sprintf("case %d: drain did not complete (C04 decides stalls): %s", c.Index, w.stallInfo()))
+						if os.Getenv("C17_STACKS") != "" {
+							fmt.Printf("=== case %d stacks at the stall\n%s\n", c.Index, h.Stacks())
+						}
 					}
 					break
 				}
@@ -448,7 +464,7 @@ func runCase(r *h.Run, c caseT) {
 			atomic.StoreInt32(&pause, 0)
 			if !w.drainAll() {
 				if cl, _ := w.cn.IsClosed(); !cl {
-					r.Inconclusive(fmt.Sprintf("case %d: drain did not complete (C04 decides stalls)", c.Index))
+					r.Inconclusive(fmt.Sprintf("case %d: drain did not complete (C04 decides stalls): %s", c.Index, w.stallInfo()))
 				}
 				break
 			}
@@ -473,7 +489,7 @@ func runCase(r *h.Run, c caseT) {
 	case <-time.After(10 * time.Second):
 		readerForced = true
 		cl, _ := w.cn.IsClosed()
-		forcedInfo = fmt.Sprintf("10 s after Close returned the peer's reader had not seen the end of the stream; received so far %d; nbio IsClosed=%v; kernel:%s\n%s", atomic.LoadInt64(&w.gotN), cl, outb.TCPStates(peer), h.Stacks())
+		forcedInfo = fmt.Sprintf("10 s after Close returned the peer's reader had not seen the end of the stream; received so far %d; nbio IsClosed=%v; kernel:%s; peer %s\n%s", atomic.LoadInt64(&w.gotN), cl, outb.TCPStates(peer), outb.FdDiag(peer), h.Stacks())
 		peer.Close()
 		<-readerDone
 	}
@@ -504,7 +520,7 @@ func runCase(r *h.Run, c caseT) {
 	if !finalDrained && !w.closed && !readerShort {
 		// the queue was not empty when the harness closed the connection: the stream is a prefix
 		// at best, and whether the drain stalled is C04's question
-		r.Inconclusive(fmt.Sprintf("case %d: final drain did not complete (C04 decides stalls); stream checked as a prefix", c.Index))
+		r.Inconclusive(fmt.Sprintf("case %d: final drain did not complete (C04 decides stalls); stream checked as a prefix: %s", c.Index, w.stallInfo()))
 	}
 	if is := outb.CheckStream(w.calls, stream, !w.closed && finalDrained); is != nil {
 		c2 := c
